@@ -17,6 +17,7 @@ from .dfmodel import DFV, DF_LIB
 from .report import AnalysisError, REPO
 from .sym import (Ev, Tup, DictV, ArrV, LibV, BoundLib, Obj, RaisedV, as_sym, is_sym, hkey, _const_int, SliceV)
 
+DROP_ATOL = sp.Symbol("DROP_ATOL", positive=True)
 FILL = "cij.util.fill:fill_cij"
 SYMS21 = [f"c{i}{j}" for i in range(1, 7) for j in range(i, 7)]
 
@@ -175,6 +176,8 @@ class Scenario:
         self.kwargs = kwargs or {}
         self.opened = []
         self.lstsq = None
+        self.rcond = None
+        self.drop_tests = []
         self.lineq_syms = None
         self.probes = []
 
@@ -302,6 +305,7 @@ def run_fill(model, sc: Scenario, ctx=None):
         if not isinstance(A, ArrV) or not isinstance(B, DataMat):
             raise AnalysisError("lstsq called with unexpected operands")
         sc.lstsq = (A, B)
+        sc.rcond = k.get("rcond")
         x = Tup([sp.Symbol(f"X{i}", real=True) for i in range(A.shape[1])], "list")
         resid = sc.resid
         if resid == "atol":
@@ -313,6 +317,14 @@ def run_fill(model, sc: Scenario, ctx=None):
 
     def allclose(ev, a, k):
         x = a[0]
+        # |x - 0| <= atol + rtol*|0|: rtol is immaterial against 0; atol must be the caller's drop tolerance
+        ref0 = a[1] if len(a) > 1 else k.get("b")
+        if not (is_sym(ref0) and ref0 == 0):
+            raise AnalysisError("allclose of a column against something other than 0")
+        k.get("rtol")
+        k.get("equal_nan")
+        atol = a[3] if len(a) > 3 else k.get("atol")
+        sc.drop_tests.append(atol)
         if is_sym(x):
             names = {str(s) for s in x.free_symbols}
             return bool(names) and names <= sc.zero
@@ -401,6 +413,8 @@ def run_fill(model, sc: Scenario, ctx=None):
     if "residual_atol" in sc.kwargs:
         ev_ref["atol"] = as_sym(sc.kwargs["residual_atol"])
     kwargs = dict(sc.kwargs)
+    if "drop_atol" in names and "drop_atol" not in kwargs:
+        kwargs["drop_atol"] = DROP_ATOL
     try:
         out = ev.call_def(f, mod, FILL, [table, sc.system], kwargs)
     except RaisedV as e:
